@@ -11,7 +11,8 @@ word for word, restricted to the operations that can be derived from the remaini
 that every operation of the kernel model that is not built on one of the five keeps every such
 predicate.  The instance at the end (`frameL_skel`) is the frame lemma for the creator forest:
 these operations leave the list of `(key, creator, detached)` triples as it is.  No property
-statements here.
+statements here.  (The body of `namespace FrameL` is re-synced with `Lemmas/Stable.lean` by
+`notes/reach_regen.py` when the kernel model changes.)
 -/
 namespace StepupModel.K
 open StepupModel.Lemmas
